@@ -33,7 +33,7 @@ def check(model, R, tier):
                     'save the mode on entry in per-entry storage and restore it unconditionally on exit without swallowing exceptions; tensors that do not require grad never get a buffer; '
                     'the release predicate keeps leaves and the root. Not decided: user code that assigns the module globals directly.',
         assumptions=['the module-level flags are only changed through the context managers', 'Python `with` semantics: __exit__ runs on normal and exceptional exit'],
-        technique='template rules over the op catalogue + CFG dominance of guards + typestate (save-on-enter / restore-on-exit) + truth tables')
+        technique='partial evaluation of all 48 op wrappers over every flag valuation + guard tables over raise sites and path conditions + typestate (save-on-enter / restore-on-exit) + truth tables')
 
 
 # ------------------------------------------------------------------------------------------------ constructor flag
